@@ -462,10 +462,14 @@ class ASTSimplifyMapper(ASTIdentityMapper):
                     result.append(node)
             return Block(*result)
 
+        # Nothing remains if every child simplified to nothing.
+        while children_queue and isinstance(children_queue[0], NullASTNode):
+            children_queue.popleft()
+        if not children_queue:
+            return NullASTNode()
+
         # current_child is the current AST node that is being worked on.
         current_child = children_queue.popleft()
-        while isinstance(current_child, NullASTNode):
-            current_child = children_queue.popleft()
 
         while children_queue:
             next_child = children_queue.popleft()
